@@ -61,11 +61,18 @@ NewSem(a) ==
                 IF t = "bad" THEN [ok |-> FALSE]
                 ELSE IF t = "string" /\ enumIx(nm) # 0 THEN EnumCol(nm, cells, a.enums[enumIx(nm)].vals)
                 ELSE [ok |-> TRUE, col |-> PlainCol(nm, t, cells)]
+      \* a constant outside the declared values repeated zero times: the column holds no undeclared value;
+      \* whether construction succeeds is not fixed by C17 (the code rejects the constant itself)
+      ghost(nm) == LET d == dataOf(nm) IN
+                   /\ d.kind = "cstring" /\ d.count = 0 /\ enumIx(nm) # 0
+                   /\ Len(a.enums[enumIx(nm)].vals) > 0
+                   /\ ~IsNull(d.cells[1]) /\ RankOf(a.enums[enumIx(nm)].vals, KeyOf(d.cells[1])) = 0
   IN
   IF \E i \in 1..Len(names) : ~NameOK(names[i]) THEN ErrFrame
   ELSE IF Len(order) # Len(names) THEN ErrFrame
   ELSE IF \E i \in 1..Len(order) : ~(\E j \in 1..Len(names) : names[j] = order[i]) THEN ErrFrame
   ELSE IF HasDup(order) THEN Unspec        \* a repeated ColumnOrder entry: no document says
+  ELSE IF \E i \in 1..Len(order) : ghost(order[i]) THEN Unspec
   ELSE LET made == [i \in 1..Len(order) |-> mk(order[i])] IN
        IF \E i \in 1..Len(made) : ~made[i].ok THEN ErrFrame
        ELSE IF a.hasenums = 1 /\ \E i \in 1..Len(a.enums) : ~enumUsable(a.enums[i]) THEN ErrFrame
